@@ -236,4 +236,38 @@ theorem C07_session_untouched_voice_partial (fuel : Nat) (sr : UInt64) (Pold Pne
     refine C06_agreeing_machines_same_future fuel Pnew sr inputs ln hln hself.symm hcov (k + 1) _ _ ⟨rfl, rfl, ?_⟩
     exact agree_transplant ln hln preN postN sj self cells hcn st' _ (canon_conformsS ln st' hln hcanon) hvoice hw
 
+/-! non-vacuity of the two theorems above (all hypotheses at once): `cnt(x) = self + x`, `lag(x) = mem(x)`; the old program
+is `let c1 = cnt(1); (c1, c1)`, the edit inserts a voice in front: `let c2 = lag(2); let c1 = cnt(1); (c2, c1)`.  The
+published skeletons are `F[F[E1]]` and `F[F[M1],F[E1]]`, the plan carries the word of `cnt` from offset 0 to offset 1; the
+swap happens before the first sample (the reference evaluator computes with opaque `Float`s, so no step is unfolded here) -/
+example (fuel : Nat) (sr : UInt64) (inputs : Nat → List UInt64) :
+    let cntF : FnDecl := ⟨"cnt", ["x"], .bin .add .self (.var "x"), some .num⟩
+    let lagF : FnDecl := ⟨"lag", ["x"], .mem (.var "x") 1, none⟩
+    let Pold : Prog := ⟨[], [cntF, lagF], ⟨"dsp", [], .letE "c1" (.call "cnt" [.lit 1] 1) (.tup [.var "c1", .var "c1"]), none⟩⟩
+    let Pnew : Prog := ⟨[], [cntF, lagF], ⟨"dsp", [],
+      .letE "c2" (.call "lag" [.lit 2] 2) (.letE "c1" (.call "cnt" [.lit 1] 1) (.tup [.var "c2", .var "c1"])), none⟩⟩
+    let lo : LNode := ⟨none, [.child 1 (some .num) []]⟩
+    let ln : LNode := ⟨none, [.child 2 none [.mem 1], .child 1 (some .num) []]⟩
+    let m0 : Machine := ⟨[], SNode.empty, 0⟩
+    publishFn Pold Pold.dsp = some lo ∧ publishFn Pnew Pnew.dsp = some ln ∧
+    noStateInArms Pnew Pnew.dsp.body = true ∧ SitesUnique Pnew ∧ SitesOk Pnew.dsp.body ∧
+    lo.cells = [] ++ .child 1 (some .num) [] :: [] ∧ ln.cells = [.child 2 none [.mem 1]] ++ .child 1 (some .num) [] :: [] ∧
+    carriesRange (planPatches (publishedSk lo) (publishedSk ln)) (selfSize lo.self + sizeCells [])
+      (selfSize ln.self + sizeCells [.child 2 none [.mem 1]]) (LNode.size ⟨some .num, []⟩) = true ∧
+    Machine.init fuel Pold sr = .ok m0 ∧ Machine.init fuel Pnew sr = .ok m0 ∧
+    prefixRun fuel Pold sr inputs 0 m0 = some ([], m0) ∧
+    Conforms lo m0.root ∧ ConformsS ⟨some .num, []⟩ (m0.root.childAt 1) := by
+  intro cntF lagF Pold Pnew lo ln m0
+  refine ⟨rfl, rfl, rfl, ?_, ?_, rfl, rfl, by decide +kernel, rfl, rfl, rfl, ?_, ?_⟩
+  · intro d hd
+    simp only [Pnew, List.mem_cons, List.not_mem_nil, or_false] at hd
+    rcases hd with rfl | rfl <;> simp [SitesOk, siteLens, cntF, lagF]
+  · simp [SitesOk, siteLens, siteLensL, Pnew]
+  · refine ⟨?_, ?_⟩
+    · intro v hv; simp [m0, SNode.empty, SNode.selfv] at hv
+    · simp [lo, ConfL, Conf, SelfOk, m0, SNode.empty, SNode.childAt, SNode.cells, SNode.selfv, lookupCell]
+  · refine ⟨?_, ?_⟩
+    · simp [SelfOkS, m0, SNode.empty, SNode.childAt, SNode.cells, SNode.selfv, lookupCell]
+    · simp [ConfSL]
+
 end Mimium.LiveCoding
